@@ -80,6 +80,7 @@ type UnitJSON struct {
 	Bounded    int            `json:"bounded_unwind,omitempty"`
 	Havocked   []string       `json:"havocked_callees,omitempty"`
 	Signature  string         `json:"signature"`
+	FuzzTest   string         `json:"fuzz_test,omitempty"`
 }
 
 func main() {
@@ -168,6 +169,19 @@ func main() {
 		finish(2)
 	}
 	res.Signature = fn.Signature.String()
+	e.unitFn = fn
+	func() {
+		defer func() { recover() }()
+		sets := map[string]uint64{}
+		for _, kv := range strings.Split(*setv, ",") {
+			if i := strings.Index(kv, "="); i > 0 {
+				var v uint64
+				fmt.Sscanf(kv[i+1:], "%v", &v)
+				sets[kv[:i]] = v
+			}
+		}
+		res.FuzzTest = e.fuzzTest(fn, sets)
+	}()
 	if os.Getenv("GOVC_LOOPS") != "" {
 		e.listLoops(fn)
 		return
